@@ -1177,7 +1177,7 @@ def _c07_worker(args):
 
 def c07(tier):
     build("cli", "vh")
-    r = Result("C07", "fault_enumeration", "one evaluation = one (tree pair with a real archive and pending one-sided deletes, archive fault) followed by a dry run and a real run; faults: 18 kinds incl. removal, zero length, garbage, wrong-shape JSON, format_version != 1, foreign pair's real archive, only .bak/.tmp left, plus a truncation sweep at EVERY byte offset of real archives; verdict from snapshots: no path removed on either side, every pre-run content on both sides after, SAFE banner, no Delete* line; distinct non-trivial = (fault kind or truncation offset, tree) where a control dry run with the unfaulted archive planned >= 1 delete")
+    r = Result("C07", "fault_enumeration", "one evaluation = one (tree pair with a real archive and pending one-sided deletes, archive fault) followed by a dry run and a real run; faults: 18 kinds incl. removal, zero length, garbage, wrong-shape JSON, format_version != 1, foreign pair's real archive, only .bak/.tmp left, plus a truncation sweep at EVERY byte offset of real archives, pairs differing in a non-UTF-8 byte, roots that are links re-pointed to another pair, relative roots from another cwd, pairs sharing one root; verdict from snapshots: no path removed on either side, every pre-run content on both sides after, SAFE banner, no Delete* line; distinct non-trivial = (fault kind or truncation offset, tree) where a control dry run with the unfaulted archive planned >= 1 delete")
     th = tier == "thorough"
     n = (800 if th else 60) * len(FAULT_KINDS)
     fold(r, run_pool(_c07_worker, seed(), n, "c07", extra=(False,)))
